@@ -1106,6 +1106,65 @@ CASES = [
         file = source_location;""")]),
  dict(name="c01-is_power_of_two-accepts-zero", ids=["C01"], rule="C01.R5e", subs=[("core/MathUtilities.h", "  return (number != 0) && ((number & (number - 1)) == 0);", "  return ((number & (number - 1)) == 0);")]),
  dict(name="c01-max_power_of_two-off-by-one-bit", ids=["C01"], rule="C01.R5e", subs=[("core/MathUtilities.h", "  return (std::numeric_limits<T>::max() >> 1) + 1;", "  return (std::numeric_limits<T>::max() >> 2) + 1;")]),
+ dict(name="c02-prefix-shrink-without-commit", ids=["C02"], rule="C02.R2h", subs=[("core/UnboundedSPSCQueue.h", """    // commit previous write to the old queue before switching
+    _producer->bounded_queue.commit_write();
+
+    // store the new node pointer as next in the current node
+    _producer->next.store(next_node, std::memory_order_release);
+
+    // producer is now using the next node
+    _producer = next_node;
+  }
+
+  /**
+   * Prepare to read from the buffer""", """    // store the new node pointer as next in the current node
+    _producer->next.store(next_node, std::memory_order_release);
+
+    // producer is now using the next node
+    _producer = next_node;
+  }
+
+  /**
+   * Prepare to read from the buffer""")]),
+ dict(name="c08-prefix-runtime-metadata-drop-not-counted", ids=["C08"], rule="C08.R2", subs=[("Logger.h", """        if ((macro_metadata->event() == MacroMetadata::Event::Log) ||
+            (macro_metadata->event() == MacroMetadata::Event::LogWithRuntimeMetadata))
+        {
+          thread_context->increment_failure_counter();
+        }
+        return false;""", """        if (macro_metadata->event() == MacroMetadata::Event::Log)
+        {
+          thread_context->increment_failure_counter();
+        }
+        return false;""")]),
+ dict(name="c08-control-events-counted-as-drops", ids=["C08"], rule="C08.R2", subs=[("Logger.h", """        if ((macro_metadata->event() == MacroMetadata::Event::Log) ||
+            (macro_metadata->event() == MacroMetadata::Event::LogWithRuntimeMetadata))
+        {
+          thread_context->increment_failure_counter();
+        }
+        return false;""", """        thread_context->increment_failure_counter();
+        return false;""")]),
+ dict(name="c03-prefix-runtime-metadata-not-applied-on-named-arm", ids=["C03", "C12", "C19"], rule="R", subs=[("backend/BackendWorker.h", """      if (transit_event->macro_metadata->event() == MacroMetadata::Event::LogWithRuntimeMetadata)
+      {
+        if (transit_event->macro_metadata->has_named_args() && transit_event->named_args &&""", """      if (!transit_event->macro_metadata->has_named_args() &&
+          transit_event->macro_metadata->event() == MacroMetadata::Event::LogWithRuntimeMetadata)
+      {
+        if (transit_event->macro_metadata->has_named_args() && transit_event->named_args &&""")]),
+ dict(name="c05-tsc-resync-publishes-two-versions", ids=["C05"], rule="C05.R7a", subs=[("backend/RdtscClock.h", "_version.fetch_add(1, std::memory_order_release);", "_version.fetch_add(2, std::memory_order_release);")]),
+ dict(name="c05-tsc-reader-mask-wrong", ids=["C05"], rule="C05.R7a", subs=[("backend/RdtscClock.h", "auto const index = _version.load(std::memory_order_relaxed) & (_base.size() - 1);\n\n    // get rdtsc current value", "auto const index = _version.load(std::memory_order_relaxed) & (_base.size() - 2);\n\n    // get rdtsc current value")]),
+ dict(name="c05-tsc-slot-time-not-stored", ids=["C05"], rule="C05.R7b", subs=[("backend/RdtscClock.h", "        _base[index].base_time = wall_time;\n", "")]),
+ dict(name="c05-tsc-version-published-relaxed", ids=["C05"], rule="C05.R7b", subs=[("backend/RdtscClock.h", "_version.fetch_add(1, std::memory_order_release);", "_version.fetch_add(1, std::memory_order_relaxed);")]),
+ dict(name="c05-tsc-safe-reader-retry-inverted", ids=["C05"], rule="C05.R7c", subs=[("backend/RdtscClock.h", "} while (version != _version.load(std::memory_order_acquire));", "} while (version == _version.load(std::memory_order_acquire));")]),
+ dict(name="c05-tsc-resync-stores-outside-lag", ids=["C05"], rule="C05.R7d", subs=[("backend/RdtscClock.h", "if (QUILL_LIKELY(end - beg <= lag))", "if (!(QUILL_LIKELY(end - beg <= lag)))")]),
+ dict(name="c05-tsc-resync-when-not-overdue", ids=["C05"], rule="C05.R7e", subs=[("backend/RdtscClock.h", "if (diff > _resync_interval_ticks)", "if (diff < _resync_interval_ticks)")]),
+ dict(name="c16-backend-consults-logger-level", ids=["C16"], rule="C16.R8b", subs=[("backend/BackendWorker.h", """    if (transit_event.macro_metadata->event() == MacroMetadata::Event::Log)
+    {
+      if (transit_event.log_level() != LogLevel::Backtrace)""", """    if (transit_event.macro_metadata->event() == MacroMetadata::Event::Log)
+    {
+      if (transit_event.logger_base->get_log_level() == LogLevel::None)
+      {
+        return;
+      }
+      if (transit_event.log_level() != LogLevel::Backtrace)""")]),
  dict(name="c06-prefix-removed-logger-sinks-not-collected", ids=["C06"], rule="C06.R4c", subs=[(BW, """        for (std::shared_ptr<Sink> const& sink : logger->sinks)
         {
           Sink* logger_sink_ptr = sink.get();""", """        if (logger->is_valid_logger())
